@@ -16,7 +16,7 @@ from ..symx import Expander, TupleV
 from ..anf import R, Unsupported
 from .. import anf, units
 from ..units import Lin, BOOL, num
-from .common import struct_ob, formula_ob, guard, last_return
+from .common import struct_ob, formula_ob, guard, last_return, U
 from .C12 import units_obligations
 from ..report import AnalysisError
 
@@ -49,7 +49,7 @@ def run(prog, tier):
     ex = Expander(prog, de.module, de)
 
     def hook(e, node, env):
-        f = ast.unparse(node.func)
+        f = U(node.func)
         if f == "self":
             return TupleV([R.sym("P(a)"), R.sym("P(b)")])
         if f == "self.cdf":
@@ -64,10 +64,10 @@ def run(prog, tier):
     o = formula_ob("hdi-cost-form", qual(de, hc), got, want, BASE, hc.lineno,
                    what="interval cost = (weight (P_a - P_b))^2 + (F_b - F_a - fraction)^2")
     # end points handed to the estimator are c -/+ w/2, lower first
-    vdef = [s for s in hc.body if isinstance(s, ast.Assign) and ast.unparse(s.targets[0]) == "v"]
-    ok_v = len(vdef) == 1 and ast.unparse(vdef[0].value) == "array([c - 0.5 * w, c + 0.5 * w])"
+    vdef = [s for s in hc.body if isinstance(s, ast.Assign) and U(s.targets[0]) == "v"]
+    ok_v = len(vdef) == 1 and U(vdef[0].value) == "array([c - 0.5 * w, c + 0.5 * w])"
     it = de.methods.get("interval")
-    txt = ast.unparse(it)
+    txt = U(it)
     ok_i = ("lwr, upr = sample_hdi(self.sample, fraction=fraction)" in txt and "c = 0.5 * (lwr + upr)" in txt and "w = upr - lwr" in txt
             and "weight = 0.2 / self(self.mode)" in txt and "args=(fraction, weight)" in txt and "fun=self.__hdi_cost" in txt
             and "return (c - 0.5 * w, c + 0.5 * w)" in txt and "c, w = result.x" in txt)
@@ -80,7 +80,7 @@ def run(prog, tier):
     # ---------------------------------------------------------------- mode
     kc = prog.cls("GaussianKDE")
     lm = kc.methods.get("locate_mode")
-    txt = ast.unparse(lm)
+    txt = U(lm)
     ok = ("minimize_scalar(lambda x: -self(x), bounds=[lwr, upr], method='bounded')" in txt and "return result.x" in txt
           and "lwr, upr = sample_hdi(self.sample, 0.2)" in txt and "lwr, upr = (self.sample[0], self.sample[-1])" in txt)
     obs.append(struct_ob("mode-is-argmax", qual(kc, lm), ok,
@@ -89,7 +89,7 @@ def run(prog, tier):
     init = uc.methods["__init__"]
     # every assignment of MAP is followed by mode = MAP[0]; log_pdf_model peaks at x0 (z = 0)
     body = init.body
-    seq = [ast.unparse(s) for s in ast.walk(init) if isinstance(s, ast.Assign) and ast.unparse(s.targets[0]) in ("self.MAP", "self.mode")]
+    seq = [U(s) for s in ast.walk(init) if isinstance(s, ast.Assign) and U(s.targets[0]) in ("self.MAP", "self.mode")]
     ok = len(seq) >= 2 and all(seq[i] == "self.MAP = self.min_result.x" and seq[i + 1] == "self.mode = self.MAP[0]" for i in range(0, len(seq) - 1, 2)) \
         and len(seq) % 2 == 0
     obs.append(struct_ob("mode-is-argmax", qual(uc, init), ok,
@@ -100,7 +100,7 @@ def run(prog, tier):
     ex = Expander(prog, uc.module, uc)
     ex.opaque_self_attrs = {"n_nodes", "sd"}
     env = {}
-    sts = {ast.unparse(s.targets[0]): s for s in init.body if isinstance(s, ast.Assign)}
+    sts = {U(s.targets[0]): s for s in init.body if isinstance(s, ast.Assign)}
     for name in ("k", "t", "self.u", "self.w"):
         if name not in sts:
             raise AnalysisError(f"anchor vanished: `{name}` in UnimodalPdf.__init__")
@@ -110,7 +110,7 @@ def run(prog, tier):
     want_t = anf.cos_(anf.PI * (2 * R.sym("k") - 1) / (2 * n))
     obs.append(formula_ob("quadrature-weights", qual(uc, init) + "[nodes]", tval, want_t, UNI, sts["t"].lineno,
                           what="Chebyshev nodes t_k = cos(pi (2k - 1) / 2n)"))
-    kdef = ast.unparse(sts["k"].value)
+    kdef = U(sts["k"].value)
     ok_k = kdef == "linspace(1, self.n_nodes, self.n_nodes)"
     T = R.sym("T")
     env2 = {"t": T}
@@ -128,24 +128,24 @@ def run(prog, tier):
     obs.append(o)
     # norm = sum(w * pdf_model(u, [0, sd, *theta[2:]])) * theta[1]
     nm = uc.methods.get("norm")
-    body = [ast.unparse(s) for s in nm.body]
+    body = [U(s) for s in nm.body]
     ok = body == ["v = self.pdf_model(self.u, [0.0, self.sd, *theta[2:]])", "integral = (self.w * v).sum() * theta[1]", "return integral"]
     obs.append(struct_ob("normaliser-consistent", qual(uc, nm), ok,
                          f"the normaliser must integrate the standardised model (location 0, scale sd) on the quadrature grid and rescale by "
                          f"the scale parameter: {body}", UNI, nm.lineno))
     # map_lognorm computed from the final MAP (after its last assignment), and used by __call__
-    lines_map = [s.lineno for s in ast.walk(init) if isinstance(s, ast.Assign) and ast.unparse(s.targets[0]) == "self.MAP"]
-    ln = [s for s in ast.walk(init) if isinstance(s, ast.Assign) and ast.unparse(s.targets[0]) == "self.map_lognorm"]
+    lines_map = [s.lineno for s in ast.walk(init) if isinstance(s, ast.Assign) and U(s.targets[0]) == "self.MAP"]
+    ln = [s for s in ast.walk(init) if isinstance(s, ast.Assign) and U(s.targets[0]) == "self.map_lognorm"]
     cfn = uc.methods.get("__call__")
-    ok = (len(ln) == 1 and ast.unparse(ln[0].value) == "log(self.norm(self.MAP))" and ln[0].lineno > max(lines_map)
+    ok = (len(ln) == 1 and U(ln[0].value) == "log(self.norm(self.MAP))" and ln[0].lineno > max(lines_map)
           and ln[0] in init.body
-          and ast.unparse(last_return(cfn).value) == "exp(self.log_pdf_model(x, self.MAP) - self.map_lognorm)")
+          and U(last_return(cfn).value) == "exp(self.log_pdf_model(x, self.MAP) - self.map_lognorm)")
     obs.append(struct_ob("normaliser-consistent", qual(uc, init), ok,
                          "the density must be exp(log_pdf_model(x, MAP) - log norm(MAP)) with the normaliser computed, unconditionally, "
                          "after the last assignment of MAP", UNI, init.lineno))
     # ---------------------------------------------------------------- cdf ordering
     cf = uc.methods.get("cdf")
-    txt = ast.unparse(cf)
+    txt = U(cf)
     ok = ("sorter = x.argsort()" in txt and "inverse_sort = sorter.argsort()" in txt and "v = x[sorter]" in txt
           and "intervals[i] = quad(self.__call__, v[i - 1], v[i])[0]" in txt and "for i in range(1, x.size)" in txt
           and "integral = intervals.cumsum()[inverse_sort]" in txt
